@@ -254,6 +254,19 @@ def rule_gates(ctx: Ctx) -> None:
         ctx.check(ok, "gate-out", sendto, c, "transport.sendto(data, ..) dominated by truthy is_allowed(data) on the same data",
                   "data can reach the outside socket without passing the exit policy (or a different buffer is checked)",
                   [str(f) for f in facts])
+        # the address actually handed to the transport (after any domain-name resolution re-entered sendto) is not the null address
+        dest = arg(c, 1, "addr")
+        xdest = _expand(sendto, dest) if dest is not None else None
+        null_ok = False
+        for f in facts:
+            if f.op == "eq" and not f.pos and xdest is not None:
+                sides = [_expand(sendto, f.left), _expand(sendto, f.right)]
+                if any(same_expr(x, xdest) for x in sides) and any(const_value(x) == ("0.0.0.0", 0) for x in sides):
+                    null_ok = True
+        ctx.check(null_ok and isinstance(xdest, ast.Name) and xdest.id in sendto.params() and not local_defs(sendto, xdest.id),
+                  "null-destination", sendto, c, "transport.sendto(data, destination) dominated by destination != ('0.0.0.0', 0) on the emitted address",
+                  "the address handed to the outside socket is not re-checked: a domain name that resolves to 0.0.0.0 (e.g. '0') with port 0 "
+                  "passes on_data's test and is emitted towards 0.0.0.0:0", [str(f) for f in facts])
     # queued / re-entrant sends go through sendto again (and are re-checked there)
     for c in calls(sendto, "self.queue.append"):
         ctx.check(True, "gate-out", sendto, c, "queued data is replayed through self.sendto (re-checked)")
@@ -744,6 +757,13 @@ WITNESSES = [
     {"name": "inbound gate checks other buffer", "file": ES, "rule": "gate-in",
      "old": "        if self.is_allowed(data):\n            try:\n                self.tunnel_data(source, data)",
      "new": "        if self.is_allowed(data[:64]):\n            try:\n                self.tunnel_data(source, data)"},
+    {"name": "resolved address not re-checked (defect fixed by 9e93f06)", "file": ES, "rule": "null-destination",
+     "old": """        if destination == ("0.0.0.0", 0):
+            # A domain name can resolve to the null address as well.
+            self.logger.warning("Cannot exit data, destination is 0.0.0.0:0")
+            return
+
+""", "new": ""},
     {"name": "null destination check dropped", "file": TC, "rule": "null-destination",
      "old": "            if destination != (\"0.0.0.0\", 0):\n                self.exit_data(circuit_id, sock_addr, destination, data)",
      "new": "            if destination:\n                self.exit_data(circuit_id, sock_addr, destination, data)"},
